@@ -439,6 +439,27 @@ func (e *Engine) resolveType(pkg, s string) (types.Type, error) {
 		}
 		return types.NewSlice(t), nil
 	}
+	if strings.HasPrefix(s, "map[") {
+		depth := 0
+		for i, ch := range s {
+			if ch == '[' {
+				depth++
+			} else if ch == ']' {
+				depth--
+				if depth == 0 {
+					k, err := e.resolveType(pkg, s[4:i])
+					if err != nil {
+						return nil, err
+					}
+					v, err := e.resolveType(pkg, s[i+1:])
+					if err != nil {
+						return nil, err
+					}
+					return types.NewMap(k, v), nil
+				}
+			}
+		}
+	}
 	switch s {
 	case "mathint":
 		return types.Typ[types.UntypedInt], nil
